@@ -78,6 +78,9 @@ func outcomeStr(sc *Scenario, rec *Rec, blocked []mc.BlockedInfo) string {
 func clientView(sc *Scenario, rec *Rec) string {
 	var b strings.Builder
 	for i, rr := range rec.RPCs {
+		if len(sc.RPCs[i].Client) == 0 {
+			continue // a call made from inside a handler: not observable at a defined instant natively
+		}
 		fmt.Fprintf(&b, "rpc%d[recv=%s final=%s hdr=%s trl=%s]", i, strings.Join(rr.CliRecv, ","), strings.Join(rr.Finals, ";"), appMD(rr.OptHeader), appMD(rr.OptTrailer))
 	}
 	return b.String()
